@@ -733,6 +733,44 @@ def translator_gate(run):
             + ' '.join(l for l in out.split('\n') if 'error' in l.lower())[:300]]
 
 
+_ARGV_WORDS = ['fixed', 'integer', 'rational', 'guarded', 'cfer', 'cfer-batch', 'meek', 'meek-prf', 'mpls', 'qpq', 'scotland', 'warren', 'wigm',
+               'wigm-prf', 'wigm-prf-batch', 'report', 'dump', 'json', 'a.blt', 'b.blt', '', 'x', 'ballots/1.blt', 'Meek', 'FIXED', 'path', 'rule',
+               'wigm_prf', 'help', 'réunion.blt']
+_ARGV_KEYS = ['rule', 'arithmetic', 'precision', 'guard', 'display', 'omega', 'integer_quota', 'defeat_batch', 'path', 'report', 'dump', 'json',
+              'profile', 'x', '', 'Rule']
+_ARGV_VALS = ['true', 'TRUE', 'True', 'yes', 'YES', 'yEs', 'false', 'FALSE', 'no', 'No', 'nO', '0', '1', '12', '007', 'abc', '', 'meek', 'fixed', 'none',
+              'zero', 'a=b', 'true=x', '=', 'yes ', ' no', 'tru', 'noo', '\uff34\uff32\uff35\uff25', 'stra\u00dfe', '\u212a', 'N\u030co', 'a.blt']
+
+
+def gen_argv(rng):
+    out = []
+    for _ in range(rng.choice([0, 1, 1, 2, 2, 3, 3, 4, 5, 7])):
+        r = rng.random()
+        if r < 0.45:
+            out.append(rng.choice(_ARGV_WORDS))
+        elif r < 0.95:
+            out.append(rng.choice(_ARGV_KEYS) + '=' + rng.choice(_ARGV_VALS))
+        else:
+            out.append(rng.choice(['=', '==', 'a==b', '=x', 'k=v=w=z']))
+    return out
+
+
+def argv_impl(av):
+    from droop.options import Options
+    from droop.common import UsageError
+    try:
+        d = Options.parse(list(av))
+    except UsageError:
+        return 'UsageError'
+    except Exception as e:
+        return 'CRASH ' + type(e).__name__
+    items = []
+    for k in sorted(d):
+        v = d[k]
+        items.append(hx(k) + '=' + ('T' if v is True else 'F' if v is False else 's' + hx(v)))
+    return 'OK ' + ' '.join(items)
+
+
 @prop('C17')
 def C17(run):
     broken = lean_gate(run, THEOREMS['C17'])
@@ -796,9 +834,31 @@ def C17(run):
         c, f, i, m, ln = firstc
         run.violation(dict(kind='correspondence', broken=['correspondence OPTS (lean/DroopModel/Options.lean vs droop/options.py, rules options(), values initialize())'],
                            cmd=c, file=f, implementation=i, model=m, case=ln, disagreeing_cases=ncorr), 'no-failing-input-found')
+    # the command line: Options.parse(argv) against lean/DroopModel/Options.lean Options.parse (verb ARGV)
+    arng = rng_for(run, 'argv')
+    argvs = [gen_argv(arng) for _ in range(budget(run, 6000, 100000))]
+    aimpl = common.pmap(argv_impl, argvs, limit=5.0, chunksize=200)
+    amodel = common.run_driver_parallel(['ARGV ' + ' '.join(hx(a) for a in av) for av in argvs])
+    nargv = 0; firsta = None; astats = collections.Counter()
+    for av, i, m in zip(argvs, aimpl, amodel):
+        if isinstance(i, tuple):
+            i = 'CRASH Timeout'
+        astats[i.split(' ')[0]] += 1
+        if i != m:
+            nargv += 1; firsta = firsta or (av, i, m)
+        if not (i.startswith('OK') or i == 'UsageError'):
+            nfail += 1
+            if nfail <= 3:
+                run.violation(dict(kind='implementation', what='Options.parse raised something other than UsageError: ' + i, argv=av))
+    if nargv and not run.violations:
+        run.violation(dict(kind='correspondence', broken=['correspondence ARGV (lean/DroopModel/Options.lean Options.parse vs droop/options.py Options.parse)'],
+                           argv=firsta[0], implementation=firsta[1], model=firsta[2], disagreeing_cases=nargv), 'no-failing-input-found')
     if broken and not run.violations:
         run.violation(dict(kind='theorem', broken=broken), 'no-failing-input-found')
     cov = run.coverage
+    cov['command_lines_compared_with_model'] = len(argvs)
+    cov['command_line_outcomes'] = dict(astats)
+    cov['command_line_disagreements'] = nargv
     cov['evaluations'] = len(cases) + len(items)
     cov['distinct_nontrivial'] = len({ln for ln, i in zip(ins, impl) if isinstance(i, str) and i.startswith('OK')})
     cov['traces_validated_against_impl'] = len(cases) - ncorr
